@@ -214,4 +214,5 @@ func genC15(seed int64, tier string, out *Writer) {
 		}
 		out.Put(J{"k": "arraw", "bytes": BB(b)})
 	}
+	genDebRaw(r, tier, out)
 }
